@@ -495,7 +495,7 @@ def evaluate(ctx, pid, scheds, rows, crashes, states, trans, mc_notes, convs=(),
     for f in mine:
         ctx.violation(step_sig(None, f),
                       "%s fails in schedule %s at step %d (%s)" % (f["what"], f["sid"], f["n"], f["a"]),
-                      {"schedule": by_sid.get(f["sid"]), "fail": f})
+                      {"schedule": by_sid.get(f["sid"].split("#")[0]), "fail": f})
     for n in sorted({(n["what"], n["a"]) for n in nonconfs}):
         ctx.nonconformance.append("step=%s what=%s (%d rows)" % (n[1], n[0], sum(1 for x in nonconfs if (x["what"], x["a"]) == n)))
     ntr = len({r["sid"] for r in rows})
